@@ -145,6 +145,8 @@ type PoolWorld struct {
 	calls      []J
 	paid       map[string]*big.Int
 	settleFail bool
+	burstSeq   int64
+	settleOnce bool // the next settlement fails, later ones succeed (real-clock wallet bursts only; cleared when the burst ends)
 	lastPay    *big.Int
 
 	lastPeerURIs []string
@@ -199,8 +201,12 @@ func (w *World) newPool(op J) error {
 	}
 	pay.Settle = func(account store.Account, paymentAmount *big.Int, newBalance *big.Int) (string, error) {
 		pw.mu.Lock()
-		fail := pw.settleFail
+		fail := pw.settleFail || pw.settleOnce
+		pw.settleOnce = false
 		pw.mu.Unlock()
+		if !fakeClock {
+			time.Sleep(300 * time.Microsecond) // a settlement takes a moment: widens the windows racing withdrawals have
+		}
 		if fail {
 			return "", errors.New("settle failed: scripted")
 		}
@@ -512,11 +518,22 @@ func (w *World) poolOp(op J) (J, error) {
 		errs := make([]error, len(reqs))
 		var wg sync.WaitGroup
 		start := make(chan struct{})
+		jitter := make([]int, len(reqs))
+		// real clock: every third burst starts all requests at once, the others one after the other with gaps of 0-600 us
+		pw.burstSeq++
+		for i := range jitter {
+			if pw.burstSeq%3 != 0 && i > 0 {
+				jitter[i] = jitter[i-1] + int((pw.burstSeq*7919+int64(i)*104729)%600)
+			}
+		}
 		for i := range reqs {
 			wg.Add(1)
 			go func(i int) {
 				defer wg.Done()
 				<-start
+				if !fakeClock {
+					time.Sleep(time.Duration(jitter[i]) * time.Microsecond) // staggered arrivals
+				}
 				var r J
 				reqs[i]["inburst"] = true
 				if isPoolOp(str(reqs[i], "op")) {
@@ -529,6 +546,9 @@ func (w *World) poolOp(op J) (J, error) {
 		}
 		close(start)
 		wg.Wait()
+		pw.mu.Lock()
+		pw.settleOnce = false
+		pw.mu.Unlock()
 		for _, err := range errs {
 			if err != nil {
 				return nil, err
@@ -552,6 +572,7 @@ func (w *World) poolOp(op J) (J, error) {
 	case "SettleMode":
 		pw.mu.Lock()
 		pw.settleFail = boolean(op, "fail")
+		pw.settleOnce = boolean(op, "once")
 		pw.mu.Unlock()
 		return okRes(nil), nil
 	}
